@@ -305,7 +305,7 @@ unsafe fn call(env: &mut Env, opi: usize, f: &str, a: &[A]) -> CallOut {
             _ => {
                 // a C caller passing NULL for the struct: same ABI, pointer instead of reference
                 let g: unsafe extern "C" fn(*const C2paSignerInfo) -> *mut C2paSigner =
-                    std::mem::transmute(c2pa_signer_from_info as unsafe extern "C" fn(&C2paSignerInfo) -> *mut C2paSigner);
+                    std::mem::transmute(c2pa_signer_from_info as usize);
                 R::Ptr(g(std::ptr::null()) as usize)
             }
         },
